@@ -19,7 +19,7 @@ for p in props:
         "evidence_file": "evidence/%s.json" % pid,
         "replay_cmd_template": "python3 verif.py replay %s {path}" % pid,
         "engine": m.get("engine", "pbt"),
-        "level_claimed": {"category": m["level"], "text": m["level_text"], "design_ref": m.get("design_ref", "DESIGN.md section 3, " + pid)},
+        "level_claimed": {"category": m["level"], "text": m["level_text"], "design_ref": m.get("design_ref", "DESIGN.md Part I (I.4 as built, I.7 sensitivity) and Part II section 3, " + pid)},
         "level_note": m["level_note"],
         "technique": m["technique"],
     })
@@ -30,7 +30,7 @@ man = {
               "baseline_off_cmd": "cd /repo && make -k check", "source_commits": [], "add_only": True},
     "engines": [
         {"name": "pbt", "path": "lib/vf_main.cc", "serves_properties": [c["property_id"] for c in checks if c["engine"] == "pbt"], "kind_free_text": "rapidcheck-driven generation and shrinking of choice sequences; every harness/cNN.cc decodes a choice sequence into a case and judges it with an independent oracle"},
-        {"name": "fuzz", "path": "lib/fuzzdrv.py", "serves_properties": [c["property_id"] for c in checks if c["engine"] == "fuzz"], "kind_free_text": "libFuzzer (fork mode) targets with structure-aware decoding, ASan/UBSan and the GMP write guard"},
+        {"name": "fuzz", "path": "fuzzdrv.py", "serves_properties": [c["property_id"] for c in checks if c["engine"] == "fuzz"], "kind_free_text": "libFuzzer (fork mode) targets with structure-aware decoding, ASan/UBSan and the GMP write guard"},
     ],
     "checks": checks,
     "not_applicable": na,
